@@ -130,14 +130,19 @@ func (g *gcGen) ln(f string, a ...interface{}) {
 }
 
 const gcPrelude = `KEEP = {}
+local function inctx() return runtime.context().kill.cpu ~= nil end
 local function mk(id, res)
-  local o = setmetatable({id = id}, {__gc = function(o) emit("gc", o.id) if res then KEEP[#KEEP + 1] = o end end})
+  local o = setmetatable({id = id}, {__gc = function(o) emit("gc", o.id, inctx()) if res then KEEP[#KEEP + 1] = o end end})
   emit("mark", id)
   return o
 end
+local function remark(o)
+  setmetatable(o, {__gc = function(o) emit("gc2", o.id, inctx()) end})
+  emit("mark", o.id)
+end
 local function ud(id, withgc)
   local u
-  if withgc then u = mkud(id, function() emit("gc", id) end) else u = mkud(id) end
+  if withgc then u = mkud(id, function() emit("gc", id, inctx()) end) else u = mkud(id) end
   emit("mark", id)
   return u
 end
@@ -149,7 +154,7 @@ func (g *gcGen) stmts(n int) {
 		if g.budget < 0 {
 			return
 		}
-		w := []int{5, 3, 3, 3, 3, 2, 2, 2, 1}
+		w := []int{5, 3, 3, 3, 3, 2, 2, 2, 1, 3}
 		if g.depth >= 2 {
 			w[6], w[7] = 0, 0
 		}
@@ -198,6 +203,18 @@ func (g *gcGen) stmts(n int) {
 			g.ind--
 			g.ln(`end).status)`)
 			g.depth--
+		case 9: // a value marked, then marked again later (new finalizer, new position in the order)
+			g.nid++
+			id := g.nid
+			g.ln(`do local r%d = mk(%d)  -- remarked`, id, id)
+			g.ind++
+			g.stmts(1 + g.t.Choose(3))
+			g.ln(`remark(r%d)`, id)
+			if g.t.Chance(1, 2) {
+				g.ln(`KEEP[#KEEP + 1] = r%d`, id)
+			}
+			g.ind--
+			g.ln(`end`)
 		case 8: // unlimited context shares the pool of its parent
 			g.depth++
 			g.ln(`emit("sharedctx", runtime.callcontext({}, function()`)
@@ -210,7 +227,7 @@ func (g *gcGen) stmts(n int) {
 	}
 }
 
-var reEv = regexp.MustCompile(`^(?:emit "(mark|gc|enter|ctx|sharedctx)"(?: (\S+))?(?: (\S+))?|(release) (\d+)|(closing|closed))`)
+var reEv = regexp.MustCompile(`^(?:emit "(mark|gc2|gc|enter|ctx|sharedctx)"(?: (\S+))?(?: (\S+))?|(release) (\d+)|(closing|closed))`)
 
 func runGC(ctx *core.RunCtx) {
 	g := &gcGen{t: ctx.Gen}
@@ -318,6 +335,11 @@ func runGC(ctx *core.RunCtx) {
 		hasGC     bool
 		kept      bool
 		res       bool
+		remark    bool // marked a second time with another finalizer
+		remarked  bool // the second marking happened
+		gcOld     int  // runs of the first finalizer
+		gcNew     int  // runs of the second finalizer
+		inCtx     string
 	}
 	objs := map[int64]*info{}
 	// static facts from the source
@@ -328,7 +350,7 @@ func runGC(ctx *core.RunCtx) {
 		switch {
 		case strings.Contains(l, "= mk(") || strings.HasPrefix(l, "do local o = mk("):
 			fmt.Sscanf(l[strings.Index(l, "mk(")+3:], "%d", &id)
-			objs[id] = &info{hasGC: true, kept: strings.Contains(l, "-- kept"), res: strings.Contains(l, "true)")}
+			objs[id] = &info{hasGC: true, kept: strings.Contains(l, "-- kept"), res: strings.Contains(l, "true)"), remark: strings.Contains(l, "-- remarked")}
 		case strings.Contains(l, "ud("):
 			rest := l[strings.Index(l, "ud(")+3:]
 			fmt.Sscanf(rest, "%d, %t", &id, &b)
@@ -360,6 +382,9 @@ func runGC(ctx *core.RunCtx) {
 		case "mark":
 			order++
 			if o := objs[id]; o != nil {
+				if o.order != 0 {
+					o.remarked = true
+				}
 				o.order = order
 				if len(stack) > 0 {
 					o.owner = stack[len(stack)-1]
@@ -381,11 +406,17 @@ func runGC(ctx *core.RunCtx) {
 				}
 				ctxKilled[n] = true
 			}
-		case "gc":
+		case "gc", "gc2":
 			o := objs[id]
 			if o == nil {
 				continue
 			}
+			if kind == "gc" {
+				o.gcOld++
+			} else {
+				o.gcNew++
+			}
+			o.inCtx = arg2
 			o.gcN++
 			o.gcAt = i
 			if o.gcN > 1 {
@@ -426,6 +457,21 @@ func runGC(ctx *core.RunCtx) {
 				fail("C18.X1", "not-finalised-exactly-once", "value %d finalised %d times by the time the runtime was closed (owner context %d)", id, o.gcN, o.owner)
 				return
 			}
+			if o.remarked && o.gcOld > 0 {
+				fail("C18.X3", "stale-finaliser-after-remark", "value %d was given a new __gc metamethod but the old one ran", id)
+				return
+			}
+			// X5: the finaliser of a value of a limited context runs inside that context
+			if o.gcN == 1 && !o.res {
+				want := "false"
+				if o.owner != 0 {
+					want = "true"
+				}
+				if o.inCtx != want {
+					fail("C18.X5", "finaliser-context", "finaliser of value %d (owner context %d) ran with a limited context in force = %s, expected %s", id, o.owner, o.inCtx, want)
+					return
+				}
+			}
 		}
 		if o.isUD {
 			if o.relN != 1 {
@@ -442,7 +488,7 @@ func runGC(ctx *core.RunCtx) {
 	last := 1 << 30
 	for i := closingAt; i < len(events); i++ {
 		m := reEv.FindStringSubmatch(events[i])
-		if m == nil || m[1] != "gc" {
+		if m == nil || (m[1] != "gc" && m[1] != "gc2") {
 			continue
 		}
 		id, _ := strconv.ParseInt(m[2], 10, 64)
